@@ -80,6 +80,8 @@ def mult_var(rows, rid):
 def node_term(row, i):
     if row.node == "bnode":
         return ("bnode", "_:%s_%d" % (row.rid, i))
+    if row.node.startswith("iri:"):        # instances of this row live in their own namespace
+        return ("iri", "%s%s_%d" % (row.node[4:], row.rid, i))
     return ("iri", "%sn/%s_%d" % (EX, row.rid, i))
 
 
